@@ -53,11 +53,12 @@ fn viol(cx: &Cx, prop: &str, class: &str, d: &Desc, opts: &str, ty: &str, input:
             return;
         }
     }
-    // Known defects of niche format traits (see known_findings.json) are keyed on the trait alone, so that
-    // every seed of the format sample maps them to the same signature; everything else is keyed on the class.
+    // signature = property | oracle class | type kind | format trait.  Known defects of niche format traits (see
+    // known_findings.json) are keyed on the (class, trait) pair: a listed finding about e.g. base-suffix formats being
+    // too strict cannot hide a base-suffix format being too lax, nor any violation in plain formats.
     let kind = if ty.starts_with('f') { "float" } else { "int" };
     let c = cause(d, class);
-    let sig = if c == "-" { format!("{prop}|{class}|{kind}|-") } else { format!("{prop}|{c}|{kind}") };
+    let sig = format!("{prop}|{class}|{kind}|{c}");
     cx.rep.violation(
         &sig,
         obj(&[
